@@ -11,7 +11,9 @@ package nsqd
 import (
 	"fmt"
 	"os"
+	"path/filepath"
 	"sort"
+	"strings"
 	"sync"
 	"sync/atomic"
 	"testing"
@@ -45,7 +47,9 @@ func TestVerifE5Concurrent(t *testing.T) {
 	}
 	stamps := make([]*vfE5Stamp, workers)
 	counts := make([]map[string]int, workers)
-	var stop int32
+	var stop, stopScan int32 // stopScan: the timeout scans and the empty / delete operations end 40 ms before everything
+	// else, so that what the last deliveries and answers leave behind (e.g. a heap entry whose message was FINished) is
+	// still there when the quiescent oracles look
 	var wg sync.WaitGroup
 	var nextClient int64 = 100
 	do := func(w int, name string, f func()) {
@@ -120,7 +124,11 @@ func TestVerifE5Concurrent(t *testing.T) {
 					}
 					do(w, "unsub", func() { ch.RemoveClient(k) })
 				default: // admin + scanner
-					switch r.Intn(10) {
+					op := r.Intn(10)
+					if atomic.LoadInt32(&stopScan) != 0 && op < 4 {
+						op = 6 // the last 40 ms: no empty / delete either (they would wipe what the oracles should see)
+					}
+					switch op {
 					case 0:
 						do(w, "emptychan", func() {
 							if tp, err := n.GetExistingTopic(tn); err == nil {
@@ -170,6 +178,9 @@ func TestVerifE5Concurrent(t *testing.T) {
 					case 6:
 						do(w, "stats", func() { n.GetStats("", "", true) })
 					default:
+						if atomic.LoadInt32(&stopScan) != 0 {
+							break
+						}
 						do(w, "scan", func() {
 							for _, ch := range n.channels() {
 								now := time.Now().UnixNano()
@@ -187,6 +198,9 @@ func TestVerifE5Concurrent(t *testing.T) {
 	blocked := ""
 	for time.Now().Before(end) && blocked == "" {
 		time.Sleep(20 * time.Millisecond)
+		if time.Until(end) < 40*time.Millisecond {
+			atomic.StoreInt32(&stopScan, 1)
+		}
 		now := time.Now().UnixNano()
 		for w := range stamps {
 			if s := atomic.LoadInt64(&stamps[w].since); s != 0 && time.Duration(now-s) > deadline {
@@ -211,6 +225,21 @@ func TestVerifE5Concurrent(t *testing.T) {
 			}
 		}
 	}
+	// audit B23: the workers have all returned (every consumer has left its channel): the daemon is quiescent apart
+	// from its own queueScanLoop.  Check what must hold of the real objects then.
+	var oracle []string
+	checks := 0
+	if blocked == "" {
+		// the auto-deletes of ephemeral objects run in goroutines of their own (`go c.deleter.Do`, `go t.deleter.Do`): give
+		// a deletion that is still between its exit flag and its unlink the time to finish before judging
+		for try := 0; try < 400; try++ {
+			oracle, checks = vfE5ConcQuiesce(n, opts.DataPath)
+			if len(oracle) == 0 {
+				break
+			}
+			time.Sleep(5 * time.Millisecond)
+		}
+	}
 	if blocked == "" {
 		if r := vfE5Try(deadline, func() { n.Exit() }); r != "ok" {
 			blocked = "op=Exit " + r
@@ -233,9 +262,98 @@ func TestVerifE5Concurrent(t *testing.T) {
 		keys = append(keys, k)
 	}
 	sort.Strings(keys)
-	line := fmt.Sprintf("E5CONC ok ops=%d", sum)
+	for _, o := range oracle {
+		fmt.Printf("E5CONC oracle %s\n", o)
+	}
+	line := fmt.Sprintf("E5CONC ok ops=%d quiesce_checks=%d oracle_failures=%d", sum, checks, len(oracle))
 	for _, k := range keys {
 		line += fmt.Sprintf(" %s=%d", k, total[k])
 	}
 	fmt.Println(line)
+}
+
+// vfE5ConcQuiesce: oracles on the real daemon once no harness goroutine is inside an operation.
+//   linked-object-exiting   a topic / channel still in its map has its exit flag set (a deletion that returned must have unlinked it)
+//   heap-map-differ         in-flight map and deadline heap of a channel disagree, or an index field is wrong
+//                           (Lean: Props.C08.map_heap_agree_at_quiescence / index_ok_every_schedule)
+//   consumer-left-attached  a channel still has a consumer although every worker has unsubscribed
+//   negative-count          a consumer's in_flight_count is negative
+//   files-of-unlinked       a disk-queue file whose owner is not a linked durable topic / channel (".bad" files excepted:
+//                           known third-party finding; a durable channel under an ephemeral topic does own files)
+// returns the failures and the number of checks evaluated
+func vfE5ConcQuiesce(n *NSQD, dataPath string) ([]string, int) {
+	var bad []string
+	checks := 0
+	owners := map[string]bool{}
+	n.RLock()
+	var tps []*Topic
+	for _, tp := range n.topicMap {
+		tps = append(tps, tp)
+	}
+	n.RUnlock()
+	for _, tp := range tps {
+		checks++
+		if tp.Exiting() {
+			bad = append(bad, "key=linked-object-exiting topic="+tp.name)
+		}
+		if !tp.ephemeral {
+			owners[tp.name] = true
+		}
+		tp.RLock()
+		var chs []*Channel
+		for _, ch := range tp.channelMap {
+			chs = append(chs, ch)
+		}
+		tp.RUnlock()
+		for _, ch := range chs {
+			checks++
+			if ch.Exiting() {
+				bad = append(bad, fmt.Sprintf("key=linked-object-exiting channel=%s:%s", tp.name, ch.name))
+			}
+			if !ch.ephemeral {
+				owners[tp.name+":"+ch.name] = true
+			}
+			ch.inFlightMutex.Lock()
+			nm, nh := len(ch.inFlightMessages), len(ch.inFlightPQ)
+			agree := nm == nh
+			for i, x := range ch.inFlightPQ {
+				if x.index != i {
+					agree = false
+				}
+				if y, ok := ch.inFlightMessages[x.ID]; !ok || y != x {
+					agree = false
+				}
+			}
+			ch.inFlightMutex.Unlock()
+			checks++
+			if !agree {
+				bad = append(bad, fmt.Sprintf("key=heap-map-differ channel=%s:%s map=%d heap=%d", tp.name, ch.name, nm, nh))
+			}
+			ch.RLock()
+			nc := len(ch.clients)
+			for _, c := range ch.clients {
+				if cv, ok := c.(*clientV2); ok && atomic.LoadInt64(&cv.InFlightCount) < 0 {
+					bad = append(bad, fmt.Sprintf("key=negative-count channel=%s:%s", tp.name, ch.name))
+				}
+			}
+			ch.RUnlock()
+			checks++
+			if nc != 0 {
+				bad = append(bad, fmt.Sprintf("key=consumer-left-attached channel=%s:%s clients=%d", tp.name, ch.name, nc))
+			}
+		}
+	}
+	files, _ := filepath.Glob(filepath.Join(dataPath, "*.diskqueue.*"))
+	for _, f := range files {
+		base := filepath.Base(f)
+		if strings.HasSuffix(base, ".bad") {
+			continue
+		}
+		owner := base[:strings.Index(base, ".diskqueue.")]
+		checks++
+		if !owners[owner] {
+			bad = append(bad, "key=files-of-unlinked file="+base)
+		}
+	}
+	return bad, checks
 }
